@@ -219,7 +219,8 @@ static CaseResult runCase(const CaseSpec& spec, bool thorough) {
   vf::Rng r(spec.seed * 1000003ull + spec.index * 7919ull + vf::fnv(spec.profile));
   GenOptions go = optionsFor(spec.profile, thorough);
   if (spec.capi) { go.singleUse = false; }
-  bool tiny = spec.profile == "c06" && (spec.index % 2) == 0;
+  if (spec.schedMode == 3) go.maxKeys = 16;   // threaded runs: larger programs, rules registered progressively while workers report
+  bool tiny = spec.profile == "c06" && spec.schedMode != 3 && (spec.index % 2) == 0;
   if (tiny) { go.maxKeys = 5; go.minKeys = 3; }
   Program prog = generate(r, go);
   std::vector<Op> hist = genHistory(r, prog, spec.profile, thorough);
